@@ -49,3 +49,35 @@ def VS.newFile (s : VS) (f : Nat) : VS := { s with files := f :: s.files, active
 /-- every pointer of a live table resolves: the file exists, the table's recorded oldest id is set and not above it -/
 def VS.inv (s : VS) : Prop :=
   ∀ t ∈ s.tables, ∀ p ∈ t.ptrs, p ∈ s.files ∧ 0 < t.oldest ∧ t.oldest ≤ p
+
+/-! ## a compaction round in progress
+
+`Compactor::merge_tables` hides its input tables, writes the output (whose value pointers are the inputs'),
+and only then switches the manifest (output in, inputs out).  Flushes — each followed by a clean-up — run
+meanwhile.  The hidden inputs stay in the manifest and are counted by `min_oldest_vlog_file_id`;
+`skipHidden = true` is the variant of a seeded change that leaves them out. -/
+
+structure VS2 where
+  s : VS := {}
+  hidden : List Nat := []      -- ids of the inputs of the running compaction
+  deriving Repr
+
+def VS.cleanupSkipping (s : VS) (hidden : List Nat) : VS :=
+  let m := minOldest (s.tables.filter (fun t => !hidden.contains t.id))
+  { s with files := s.files.filter (fun f => !(decide (f < m) && f != s.active)) }
+
+inductive VAct2
+  | newFile (f : Nat)
+  | flush (id : Nat) (ptrs : List Nat)      -- a new table whose pointers were just written
+  | cleanup
+  | hide (ids : List Nat)                   -- a compaction round picks and hides its inputs
+  | finish (newId : Nat)                    -- output installed with the inputs' pointers, inputs removed
+
+def VS2.act (skipHidden : Bool) (x : VS2) : VAct2 → VS2
+  | .newFile f => { x with s := x.s.newFile f }
+  | .flush id ptrs => { x with s := x.s.addTable id ptrs }
+  | .cleanup => { x with s := if skipHidden then x.s.cleanupSkipping x.hidden else x.s.cleanup }
+  | .hide ids => { x with hidden := ids }
+  | .finish newId =>
+    let inputs := x.s.tables.filter (fun t => x.hidden.contains t.id)
+    { s := (x.s.addTable newId (inputs.flatMap (·.ptrs))).dropTables x.hidden, hidden := [] }
